@@ -11,6 +11,7 @@
                    (f = "fail" models an observer call that raises, e.g. at a size bound)
      Parse(o)      parse the buffer into slot o
      BufMutate     the caller overwrites / consumes the buffer afterwards
+     ResMutate     the caller edits the value an observer RETURNED (appends to the composed bytearray, sorts the list, ...)
 
    GHOST state: exp[o] is the value the object in slot o must have if objects are
    independent - it changes only by Mutate(o), New(o), Parse(o).  The property is
@@ -24,23 +25,26 @@
                      before the fix)
      LeakyObserver   an observer edits the object and restores it afterwards, but not
                      when it fails half-way (client hello compose before the fix)
+     AliasResult     an observer hands out the object's own mutable part instead of a copy
+                     (TlsApplicationDataMessage.compose returned self.data)
    TLC rejects each of them; the harness replays the histories TLC enumerates on the
    real classes and compares which objects changed with what this model allows. *)
 EXTENDS Integers, Sequences, FiniteSets, TLC
 
-CONSTANTS Slots, MaxSteps, SharedDefault, AliasInput, LeakyObserver
+CONSTANTS Slots, MaxSteps, SharedDefault, AliasInput, LeakyObserver, AliasResult
 
 DefaultCell == <<"default", "-", 0>>
 BufCell == <<"buf", "-", 0>>
 NoCell == <<"none", "-", 0>>
-Cells == {DefaultCell, BufCell} \cup {<<"own", s, k>> : s \in Slots, k \in 0..MaxSteps}
+Cells == {DefaultCell, BufCell} \cup {<<"own", s, k>> : s \in Slots, k \in 0..MaxSteps} \cup {<<"res", "-", k>> : k \in 0..MaxSteps}
 
 VARIABLES mem,      \* cell -> value
           ref,      \* slot -> cell (or "none")
           exp,      \* ghost: slot -> value the object must have
           last,     \* slot -> last successful observer result (or -1)
+          resref,   \* the cell the last observer result lives in ("none" before any observation)
           steps, op
-vars == <<mem, ref, exp, last, steps, op>>
+vars == <<mem, ref, exp, last, resref, steps, op>>
 
 Live == {s \in Slots : ref[s] # NoCell}
 Value(s) == mem[ref[s]]
@@ -48,7 +52,7 @@ Fresh(s) == <<"own", s, steps>>          \* a cell nobody else refers to
 
 Init == /\ mem = [c \in Cells |-> 0]
         /\ ref = [s \in Slots |-> NoCell] /\ exp = [s \in Slots |-> 0] /\ last = [s \in Slots |-> -1]
-        /\ steps = 0 /\ op = <<"init", "-", "-">>
+        /\ resref = NoCell /\ steps = 0 /\ op = <<"init", "-", "-">>
 
 Tick(o) == steps' = steps + 1 /\ op' = o /\ steps < MaxSteps
 
@@ -56,32 +60,38 @@ New(s) == /\ Tick(<<"new", s, "-">>)
           /\ IF SharedDefault
              THEN ref' = [ref EXCEPT ![s] = DefaultCell] /\ mem' = mem
              ELSE ref' = [ref EXCEPT ![s] = Fresh(s)] /\ mem' = [mem EXCEPT ![Fresh(s)] = 0]
-          /\ exp' = [exp EXCEPT ![s] = 0] /\ last' = [last EXCEPT ![s] = -1]
+          /\ exp' = [exp EXCEPT ![s] = 0] /\ last' = [last EXCEPT ![s] = -1] /\ UNCHANGED resref
 
 Mutate(s) == /\ s \in Live /\ Tick(<<"mutate", s, "-">>)
              /\ mem' = [mem EXCEPT ![ref[s]] = @ + 1]
              /\ exp' = [exp EXCEPT ![s] = @ + 1] /\ last' = [last EXCEPT ![s] = -1]
-             /\ UNCHANGED ref
+             /\ UNCHANGED <<ref, resref>>
 
 Observe(s, f) == /\ s \in Live /\ Tick(<<"observe", s, f>>)
                  /\ IF f = "fail" /\ LeakyObserver
                     THEN mem' = [mem EXCEPT ![ref[s]] = @ + 1]      \* temporary edit never undone
                     ELSE mem' = mem
                  /\ last' = IF f = "ok" THEN [last EXCEPT ![s] = Value(s)] ELSE last
+                 /\ resref' = IF f # "ok" THEN resref ELSE IF AliasResult THEN ref[s] ELSE <<"res", "-", steps>>
                  /\ UNCHANGED <<ref, exp>>
 
 Parse(s) == /\ Tick(<<"parse", s, "-">>)
             /\ IF AliasInput
                THEN ref' = [ref EXCEPT ![s] = BufCell] /\ mem' = mem
                ELSE ref' = [ref EXCEPT ![s] = Fresh(s)] /\ mem' = [mem EXCEPT ![Fresh(s)] = mem[BufCell]]
-            /\ exp' = [exp EXCEPT ![s] = mem[BufCell]] /\ last' = [last EXCEPT ![s] = -1]
+            /\ exp' = [exp EXCEPT ![s] = mem[BufCell]] /\ last' = [last EXCEPT ![s] = -1] /\ UNCHANGED resref
 
 BufMutate == /\ Tick(<<"bufmutate", "-", "-">>)
              /\ mem' = [mem EXCEPT ![BufCell] = @ + 1]
-             /\ UNCHANGED <<ref, exp, last>>
+             /\ UNCHANGED <<ref, exp, last, resref>>
+
+\* the caller edits the returned value in place: it is the caller's, no object may notice
+ResMutate == /\ resref # NoCell /\ Tick(<<"resmutate", "-", "-">>)
+             /\ mem' = [mem EXCEPT ![resref] = @ + 1]
+             /\ UNCHANGED <<ref, exp, last, resref>>
 
 Next == \/ \E s \in Slots : New(s) \/ Mutate(s) \/ Parse(s) \/ Observe(s, "ok") \/ Observe(s, "fail")
-        \/ BufMutate
+        \/ BufMutate \/ ResMutate
 Spec == Init /\ [][Next]_vars
 
 Independent   == \A s \in Live : Value(s) = exp[s]
